@@ -285,7 +285,7 @@ def Typed (env : Env) (c : Ctx) (l : LEnv) (e : Expr) : Prop := ValOk (tyOf c e)
 def MemInv (c : Ctx) (l : LEnv) (mem : List Int) : Prop :=
   c.vars.length = l.vars.length ∧
   (∀ k, c.vars.getD k .bool ≠ .bool → getM mem (4 * k + 3) = toVm (l.vars.getD k .undef)) ∧
-  (∀ n, l.cur = some n → ∃ slot, c.ofSlot = some slot ∧ getM mem slot = encStr n)
+  (∀ n, l.cur = some n → ∃ slot, c.ofSlot = some slot ∧ slot < 4 * c.vars.length ∧ getM mem slot = encStr n)
 
 /-- no loops and no `P% of` inside -/
 def loopFree : Expr → Bool
